@@ -237,6 +237,12 @@ def whole_sequence(ctx, folds):
                 prev = norm_seq.pop() if norm_seq else None
                 first_ok = prev is not None and prev[0] == "T" and is_call(prev[1], "common::Method::raw") and payload_of(prev[1][2][0]) is not None and norm(_iter_source(payload_of(prev[1][2][0])[2][0])) == norm(p[2])
                 norm_seq.append(("ALLOW",) if first_ok else ("BADALLOW",))
+            elif p[0] == "ALLOW" and p[1] == "D":
+                # form D: Method::raw(first) was written just before the loop over the rest
+                prev = norm_seq.pop() if norm_seq else None
+                a = look(prev[1][2][0]) if prev is not None and prev[0] == "T" and is_call(prev[1], "common::Method::raw") else None
+                first_ok = a is not None and a[0] == "field" and a[3] == "0" and payload_of(a[1]) is not None and norm(payload_of(a[1])) == norm(p[2])
+                norm_seq.append(("ALLOW",) if first_ok else ("BADALLOW",))
             elif p[0] == "ALLOW" and p[1] == "C":
                 norm_seq.append(("ALLOW-C", p[2]))
             elif p[0] == "ALLOW":
@@ -476,6 +482,15 @@ def classify_loop(ctx, fn, H, bodies, folds):
                 ok = ok and len(body) == 2 and body[1] == ("C", b", ") and body[0][0] == "T" and is_call(body[0][1], "common::Method::raw") and is_item(look(body[0][1][2][0]))
             ctx.ob("R05.1", "allow|iteration", ok, "every element but the last is written as Method::raw(item) followed by ', ' (the last one follows the loop)", loc)
             return ("ALLOW", "C", sl) if ok else ("bad",)
+    # the Allow list, form D: (first, rest) = self.allow.split_first(); raw(first); for m in rest { ", " raw(m) }
+    if base is not None and base[0] == "field" and base[3] == "1":
+        sf = payload_of(base[1])
+        if sf is not None and is_call(sf, "split_first") and resp_field(sf[2][0], "headers", "allow") and not enumerated:
+            ok = len(writing) >= 1
+            for lf, i1, body in writing:
+                ok = ok and len(body) == 2 and body[0] == ("C", b", ") and body[1][0] == "T" and is_call(body[1][1], "common::Method::raw") and is_item(look(body[1][1][2][0]))
+            ctx.ob("R05.1", "allow|iteration", ok, "every element but the first is written as ', ' followed by Method::raw(item) (the first one precedes the loop)", loc)
+            return ("ALLOW", "D", sf) if ok else ("bad",)
     # the Allow list
     if base is not None and resp_field(base, "headers", "allow"):
         def is_raw_item(p, enumerated_):
@@ -586,10 +601,8 @@ def set_body(ctx):
     for w in field_writers(facts, "response::Response", "body"):
         ctx.ob("R05.3", "writers|body|%s" % w[0], writer_roots(facts, w[0]) <= allowed_body, "writer of Response.body: %s (%s)" % (w[0], w[3]), w[2])
     # callers of set_content_length: only the public pass-through and set_body
-    callers = set()
-    for g in facts.fns.values():
-        for bb, t in g.calls_to("response::ResponseHeaders::set_content_length"):
-            callers.add(g.name)
+    from .util import caller_fns
+    callers = caller_fns(facts, "response::ResponseHeaders::set_content_length")     # looking through helpers that are not in the frozen list
     # Response::new may also use the setter for the initial value: R05.4 decides what it stores
     ctx.ob("R05.3", "callers|set_content_length", callers <= {"response::Response::set_body", "response::Response::set_content_length", "response::Response::new"}, "callers of ResponseHeaders::set_content_length: %s" % sorted(callers))
 
